@@ -10,6 +10,7 @@ import (
 	"path/filepath"
 	"sync"
 	"sync/atomic"
+	"syscall"
 	"time"
 
 	"golang.org/x/crypto/ssh"
@@ -77,6 +78,8 @@ type link struct {
 	tr        *transport.Transport
 	peer      io.ReadWriter // the peer's end of the byte stream of the current Open
 	killPeer  func()        // the peer goes away abruptly
+	closeDone chan struct{} // closed when the last closeTransport's Close call returned
+	freeze    func()        // the peer hangs: connection up, nothing processed any more
 	leave     func()        // the peer ends the session in an orderly way (everything it wrote before is on its way)
 	peerClose func()        // harness-side release of the current peer connection
 	cleanup   []func()
@@ -158,6 +161,11 @@ func newLink(kind string, readSize int, early *earlyPlan, sockTO ...time.Duratio
 			l.peer = c
 			l.killPeer = func() { c.Close() }
 			l.leave = func() { c.Close() } // the stand-in copies what is pending to the pty, then exits
+			l.freeze = func() {            // stop the child (SIGSTOP): the pty stays open, nobody serves it
+				if l.pid > 0 {
+					syscall.Kill(l.pid, syscall.SIGSTOP)
+				}
+			}
 			l.peerClose = func() { c.Close() }
 			// session is up once the stand-in announced readiness (raw mode is set by then)
 			return l.readMarker(false)
@@ -214,6 +222,7 @@ func newLink(kind string, readSize int, early *earlyPlan, sockTO ...time.Duratio
 				l.peer = s
 				l.killPeer = s.Kill
 				l.leave = func() { s.CloseWrite(); s.Close() } // orderly end of the session channel
+				l.freeze = s.Freeze                            // the server stops processing the connection
 				l.peerClose = s.Kill
 			case <-time.After(30 * time.Second):
 				return fmt.Errorf("%w: Open returned but the server saw no session", errSetup)
@@ -259,6 +268,7 @@ func newLink(kind string, readSize int, early *earlyPlan, sockTO ...time.Duratio
 				l.peer = c
 				l.killPeer = func() { c.Close() }
 				l.leave = func() { c.Close() } // FIN after the data
+				l.freeze = func() {}           // a raw TCP peer that hangs simply does not read
 				l.peerClose = func() { c.Close() }
 			case <-time.After(20 * time.Second):
 				return fmt.Errorf("%w: Open returned but the TCP peer saw no connection", errSetup)
@@ -321,6 +331,7 @@ func (l *link) closeTransport(force bool, d time.Duration) bool {
 		return true
 	}
 	done := make(chan struct{})
+	l.closeDone = done
 	go func() {
 		defer func() { recover(); close(done) }()
 		l.tr.Close(force)
@@ -331,6 +342,36 @@ func (l *link) closeTransport(force bool, d time.Duration) bool {
 	case <-time.After(d):
 		return false
 	}
+}
+
+// stillStuck is called when Close / the blocked read did not come back within the first 5 s while
+// the machine was loaded: it keeps watching for up to four more windows of 5 s. A window during
+// which the load canary stayed healthy and still nothing came back decides: stuck (violation).
+// Returns (stuck, conclusive); (false, true) = everything came back late, (false, false) = every
+// window was disturbed by load.
+func (l *link) stillStuck(cs *sink, before int, needRead bool) (stuck, conclusive bool) {
+	for w := 0; w < 4; w++ {
+		tw := time.Now()
+		for time.Since(tw) < 5*time.Second {
+			closeBack := true
+			if l.closeDone != nil {
+				select {
+				case <-l.closeDone:
+				default:
+					closeBack = false
+				}
+			}
+			readBack := !needRead || cs.waitReturn(before, 0)
+			if closeBack && readBack {
+				return false, true
+			}
+			time.Sleep(20 * time.Millisecond)
+		}
+		if !mon.LoadedSince(tw) {
+			return true, true
+		}
+	}
+	return false, false
 }
 
 // close releases everything the case opened (idempotent enough for deferred use) and kills and
